@@ -9,4 +9,6 @@ McConfs3 == {<<1, 2>>, <<2, 3>>, <<3, 1>>}
 \* two packets for the same block (the second finds the block confirmed enough) and one for the block above
 McConfs2x == {<<1, 2>>, <<1, 3>>, <<2, 1>>}
 McNone == {}
+\* read by the vacuity guard of checks/c20.py (one line of TLC's output)
+ASSUME PrintT(<<"ConfiguredOff", ConfiguredOff>>)
 ====
